@@ -261,7 +261,8 @@ theorem echoInv_handleMsgs (ms : List Msg) (e : Ep) (hr : RxInv e) (hi : EchoInv
     unfold handleMsgs
     split
     · exact hi
-    · exact ih _ (rxInv_handleMsg e m hr) (echoInv_handleMsg e m hr hi)
+    · have hr' : RxInv { e with rxMore := !ms.isEmpty || e.rx.dead } := rxInv_of_view (e := e) rfl hr
+      exact ih _ (rxInv_handleMsg _ m hr') (echoInv_handleMsg _ m hr' (echoInv_of_view (e := e) rfl hi))
 
 theorem echoInv_recvRaw (e : Ep) (c : Bytes) (hr : RxInv e) (hi : EchoInv e) : EchoInv (recvRaw e c).1 := by
   unfold recvRaw
